@@ -2,6 +2,7 @@ import Bng.Drv.Common
 import Bng.Drv.Bitmap
 import Bng.Drv.Epoch
 import Bng.Drv.Dist
+import Bng.Drv.PoolAlloc
 /-
   bngdrv-alloc <component> < trace — the allocator components (bitmap, epoch, dist) alone
   (development convenience; the same components are registered in Main.lean).
@@ -11,7 +12,8 @@ open Bng.Drv
 def components : List (String × Component) := [
   ("bitmap", BitmapDrv.component),
   ("epoch", EpochDrv.component),
-  ("dist", DistDrv.component)
+  ("dist", DistDrv.component),
+  ("poolalloc", PoolAllocDrv.component)
 ]
 
 def main (args : List String) : IO UInt32 := do
